@@ -50,13 +50,13 @@ pub fn spec(prop: &str) -> Option<PropSpec> {
             &["probe.block_held_back", "probe.held_back_depth_ge_2", "probe.child_delivered_before_parent", "probe.block_before_pack", "probe.deliver_duplicate", "enum.c02_permutations", "enum.c02_prefixes", "probe.refresh_after_time_travel", "fault.walk_torn_arrival", "fault.walk_restore"]),
         "C03" => s("C03", "exploration", 100000, 1500000, &["probe.reopen_compared"], &["probe.commit_ok"],
             "histories with nasty JSON content and 1..n staged operations between commits; after every successful commit a second replica is opened on the same storage and compared; non-trivial = at least one commit was compared with a fresh open; distinct = distinct op sequence hash",
-            &["probe.reopen_compared", "probe.objop"]),
+            &["probe.reopen_compared", "probe.objop", "probe.objop_twin_content", "probe.commit_failed"]),
         "C04" => s("C04", "exploration", 150000, 2250000, &["probe.read_checked_exact", "probe.read_checked_array_conflict"], &[],
             "documents from the generator family submitted in reachable states; read compared with the submitted document after every update; non-trivial = at least one update was checked; distinct = distinct op sequence hash",
             &["probe.read_checked_exact", "probe.read_checked_array_conflict", "probe.update_twice", "probe.commit_nothing_staged"]),
         "C05" => s("C05", "exploration", 40000, 900000, &["probe.tree_prefix_checked"], &["probe.tree_checked"],
             "every object of every replica at every sync point and after every staging op: winner/conflicts vs the reference rule on the recorded revision set, plus re-insertion in ALL insertion orders for trees of up to 5 revisions (every third step) and in reverse + seeded permutations for larger ones, with a check after every prefix; non-trivial = at least one tree with >= 2 revisions was permuted; distinct = distinct op sequence hash",
-            &["probe.tree_prefix_checked", "probe.tree_all_orders", "probe.tree_prefix_dangling_parent", "probe.conflict_at_sync", "probe.three_live_leaves", "probe.revision_index_ge_10", "probe.resolve"]),
+            &["probe.tree_prefix_checked", "probe.tree_all_orders", "probe.tree_synthetic", "probe.tree_synthetic_child_of_marker", "probe.tree_prefix_dangling_parent", "probe.conflict_at_sync", "probe.three_live_leaves", "probe.revision_index_ge_10", "probe.resolve"]),
         "C11" => s("C11", "exploration", 100000, 1500000, &["probe.write_checked"], &["probe.delivered"],
             "every write of every replica checked against its name; all items of all replicas compared byte-wise after every op; non-trivial = items were written and also travelled between replicas; distinct = distinct op sequence hash",
             &["probe.write_checked", "probe.meld_items", "probe.delivered", "probe.deliver_duplicate"]),
